@@ -55,6 +55,14 @@ pub fn owned_lockable_verdicts() -> Vec<(&'static str, bool, bool)> {
         false: Node,
         false: CN,
         false: &'static CML,
+        // a mutable reference is only as owned as what it points to
+        false: &'static mut &'static M,
+        false: &'static mut [&'static M; 2],
+        false: &'static mut Vec<&'static R>,
+        false: &'static mut BoxedLockCollection<&'static M>,
+        false: &'static mut RefLockCollection<'static, [M; 2]>,
+        false: (&'static mut &'static M, &'static mut &'static M),
+        false: [&'static mut Poisonable<&'static M>; 2],
         // inputs that own their locks
         true: M,
         true: R,
@@ -66,6 +74,9 @@ pub fn owned_lockable_verdicts() -> Vec<(&'static str, bool, bool)> {
         true: Vec<M>,
         true: Box<[R]>,
         true: &'static mut M,
+        true: &'static mut [M; 2],
+        true: &'static mut Poisonable<R>,
+        true: &'static mut OwnedLockCollection<Vec<M>>,
         true: CML,
         true: BoxedLockCollection<[M; 2]>,
         true: RetryingLockCollection<(M,)>,
